@@ -12,13 +12,16 @@ RULE = ('Hypothesis draws a property package of 1-6 chemicals (Water, organics, 
         'Glucose), feeds with flows 0 or 10**u (u in [-3,3]) and one helper configuration: mix_and_split (1-4 inlets, '
         'Stream or MultiStream, scalar/array split incl. 0 and 1, fresh/dirty/reused outlets); adjust_moisture_content and '
         'mix_and_split_with_moisture_content (moisture in (0,0.95), water constructed to be sufficient or insufficient, '
-        'strict in None/False/True, moisture ID None/Water/another liquid, Stream or MultiStream pairs); partition and '
+        'strict in None/False/True, moisture ID None/Water/another liquid, Stream or MultiStream pairs, packages in '
+        'which water is registered as H2O); partition and '
         'phase_fraction (1..n equilibrium IDs in any order, K=10**u u in [-3,3] incl. exactly 1 and all<1/all>1, remaining '
         'chemicals forced to top/bottom/unlisted, fresh outlets, outlets reused by a second call with the same roles, or the '
         'two phases of the feed MultiStream as outlets like biosteam stages); lle wrapper (efficiency 0/1/[0,1], '
         'top_chemical, multi_stream reuse, feed aliased as top like biosteam SLLECentrifuge); vle wrapper (V-P, T-P, T-V, '
         'P-Q, binary x/y with T or P, multi_stream reuse, Stream or MultiStream feed); phase_split (MultiStream over any '
-        'non-empty subset of s,l,g,S,L, fresh or dirty outlets, wrong outlet count); chemical_splits (a,b or a,mixed); '
+        'non-empty subset of s,l,g,S,L, fresh or dirty outlets, wrong outlet count; and multi-step: split, change the '
+        'phase set of the same feed object via the phases setter / lle / vle / copy_like from a stream with other phases, '
+        'split again into the matching number of outlets, 1-3 times); chemical_splits (a,b or a,mixed); '
         'material_balance (flow balance, exact or least-squares, 1-4 variable inlets with a constructed diagonally '
         'dominant composition matrix and positive true factors). Cross-package variants: the outlets of mix_and_split '
         'and of the moisture helpers (top only, bottom only, both), the outlets of phase_split, and the multi_stream + '
@@ -44,8 +47,9 @@ ASSUMPTIONS = [
 ]
 REQUIRED_CELLS = {
     'quick': ['mix_split:scalar', 'mix_split:array', 'mix_split:reuse', 'mix_split:xpkg=bottom', 'mix_split:xpkg=top',
-              'mix_split:xpkg=both', 'moisture:xpkg=bottom', 'moisture:xpkg=top', 'moisture:xpkg=both',
-              'phase_split:xpkg', 'lle:xpkg', 'vle:xpkg',
+              'mix_split:xpkg=both', 'moisture:xpkg=bottom', 'moisture:xpkg=top', 'moisture:xpkg=both', 'moisture:water-as-H2O,ID=None',
+              'phase_split:xpkg', 'phase_split_seq:op=phases', 'phase_split_seq:op=lle', 'phase_split_seq:op=vle',
+              'phase_split_seq:op=copy_like', 'phase_split_seq:phases-grown', 'lle:xpkg', 'vle:xpkg',
               'moisture:via=adjust', 'moisture:via=mix_split', 'moisture:sufficient', 'moisture:insufficient,strict',
               'moisture:insufficient,lenient', 'moisture:reached', 'moisture:kind=M', 'moisture:ID=other',
               'partition:mode=fresh', 'partition:mode=reuse', 'partition:mode=inplace', 'partition:phi=mid',
@@ -72,13 +76,15 @@ POOL = {
     'm2': (('Water', 'Solids'), {}),
     'm3': (('Glucose', 'Water', 'Ethanol'), {'Glucose': 's'}),
     'm4': (('Ethanol', 'Solids', 'Glycerol', 'Water'), {}),
+    'h2': (('H2O', 'Solids'), {}),                       # water registered under another ID (CAS / 'water' still resolve)
+    'h3': (('Ethanol', 'H2O', 'Glycerol'), {}),
     'e3': (('Water', 'Ethanol', 'Octanol'), {}),
     'e4': (('Hexane', 'Water', 'Acetone', 'Ethanol'), {}),
     'e3g': (('Water', 'Ethanol', 'O2'), {'O2': 'g'}),
 }
 GENPK = ['g1', 'g2', 'g3', 'g4', 'g5', 'g6']
 MIXPK = ['g1', 'g2', 'g3', 'g5', 'g6', 'm2', 'm4']
-MOISTPK = ['m2', 'm3', 'm4', 'g3', 'g2']
+MOISTPK = ['m2', 'm3', 'm4', 'g3', 'g2', 'h2', 'h3']
 LLEPK = ['e3', 'e4', 'g6', 'g2']
 VLEPK = ['g2', 'e3', 'e4', 'e3g', 'g6', 'g1']
 SOLVER_REJECTIONS = (InfeasibleRegion, NoEquilibrium, NotImplementedError, RuntimeError)
@@ -311,8 +317,9 @@ def _moisture_index(ch, pid, names):
     idk = ch.choice('ID', ['none', 'none', 'none', 'water-name', 'other'])
     others = [x for x in names if x in ('Ethanol', 'Glycerol')]
     if idk == 'other' and not others: idk = 'water-name'
-    if idk == 'none': return idk, None, names.index('Water')
-    if idk == 'water-name': return idk, 'Water', names.index('Water')
+    wname = 'Water' if 'Water' in names else 'H2O'      # the ID under which water is registered in this package
+    if idk == 'none': return idk, None, names.index(wname)
+    if idk == 'water-name': return idk, wname, names.index(wname)
     nm = ch.choice('ID.other', others)
     return idk, nm, names.index(nm)
 
@@ -407,9 +414,11 @@ def prop_moisture(ch, ctx):
         skey = [[zp(f) for f in flows], sk, zp(sv)]
 
     total0 = ret0 + perm0
-    region = f'kind={kind},ID={idk},sufficient={int(sufficient)},strict={strict}' + (f',xpkg={xp}' if xp != 'none' else '')
+    region = (f'kind={kind},ID={idk},sufficient={int(sufficient)},strict={strict}' + (f',xpkg={xp}' if xp != 'none' else '')
+              + (',water=H2O' if 'H2O' in names else ''))
     ctx.cell('moisture:via=' + via); ctx.cell('moisture:kind=' + kind); ctx.cell('moisture:ID=' + idk)
     ctx.cell('moisture:xpkg=' + xp)
+    if 'H2O' in names: ctx.cell('moisture:water-as-H2O' + (',ID=None' if ID is None else ''))
     scale = max(1.0, float(total0.max()), float(need))
     raised = False
     try:
@@ -820,6 +829,88 @@ def prop_phase_split(ch, ctx):
         ctx.nontriv(['phase_split', pid, opk, sorted(phases), [zp(r) for r in rows], dirty])
 
 
+
+# ---------------------------------------------------------------------------
+# phase_split on a feed whose phase set changes between calls
+def _check_phase_split(ctx, feed, th, n, region, T_P=True):
+    """phase_split into fresh outlets; every phase of the feed (dense snapshot of its indexer) in its own outlet."""
+    snap = arr2(feed)
+    phases = list(feed.phases)
+    T, P = feed.T, feed.P
+    outlets = [tmo.Stream(None, thermo=th) for _ in phases]
+    ctx.call('phase_split', sep.phase_split, feed, outlets, region=region)
+    if not np.array_equal(arr2(feed), snap) or list(feed.phases) != phases:
+        ctx.fail(f'phase_split|{region}|feed-modified', 'feed changed')
+    if phases != sorted(phases):
+        ctx.fail(f'phase_split|{region}|order', f'feed.phases {phases!r} not alphabetical')
+    total = np.zeros(n)
+    for k, ph in enumerate(phases):
+        o = outlets[k]
+        got = tot(o); total += got
+        if isinstance(o, tmo.MultiStream) or o.phase != ph:
+            ctx.fail(f'phase_split|{region}|phase', f'outlet {k} has phase {getattr(o, "phase", None)!r}, expected {ph!r}')
+        if not np.array_equal(got, snap[k]):
+            ctx.fail(f'phase_split|{region}|flows', f'outlet {k} ({ph}) holds {got.tolist()}, feed phase holds '
+                     f'{snap[k].tolist()} (phases {phases})')
+        if o.T != T or o.P != P:
+            ctx.fail(f'phase_split|{region}|TP', f'outlet {k}: T,P = {o.T!r},{o.P!r}; feed {T!r},{P!r}')
+    if not np.allclose(total, snap.sum(axis=0), rtol=1e-12, atol=0):
+        ctx.fail(f'phase_split|{region}|balance', f'sum of outlets {total.tolist()} vs feed {snap.sum(axis=0).tolist()}')
+
+
+def prop_phase_split_seq(ch, ctx):
+    """split, change the phase set of the same feed object (phases setter, lle / vle adding a phase, copy_like from a
+    stream with other phases), split again into the matching number of outlets."""
+    pid = ch.choice('pkg', ['e3', 'e4', 'g2', 'g6'])
+    th = thermo(pid); tmo.settings.set_thermo(th)
+    n = len(names_of(pid))
+    phases = ch.choice('phases', [['g', 'l'], ['l'], ['l', 's'], ['g'], ['L', 'l'], ['g', 'l', 's']])
+    rows = [ch.flows(f'{p}.flow', n, -2, 2) for p in phases]
+    feed = mk_multi(th, phases, rows, ch.float('T', 300., 370.), 101325.)
+    first = ch.bool('skip_first_split')
+    if not first:
+        _check_phase_split(ctx, feed, th, n, 'seq,step=0,op=init')       # also creates the per-phase proxy streams
+    ops = []
+    for k in range(ch.int('nsteps', 1, 3)):
+        op = ch.choice(f's{k}.op', ['phases', 'lle', 'vle', 'copy_like', 'phases', 'lle'])
+        before = sorted(feed.phases)
+        if op == 'phases':
+            # a new phase set that keeps every phase currently holding material (merging is C12's subject)
+            present = [p for p, r in zip(feed.phases, arr2(feed)) if r.any()]
+            add = ch.subset(f's{k}.add', ['s', 'l', 'g', 'L', 'S'], min_size=0)
+            new = sorted(set(present) | set(add))
+            for extra in ('l', 'g'):                      # a one-phase set would turn the feed into a plain Stream
+                if len(new) < 2 and extra not in new: new = sorted(new + [extra])
+            ctx.call('phases.setter', lambda: setattr(feed, 'phases', tuple(new)), region='seq')
+        elif op == 'lle':
+            tc = ch.choice(f's{k}.tc', [None] + names_of(pid))
+            try:
+                ctx.call('feed.lle', lambda: feed.lle(T=feed.T, top_chemical=tc),
+                         allowed=SOLVER_REJECTIONS + SOLVER_NUMERICAL, region='seq')
+            except SOLVER_REJECTIONS + SOLVER_NUMERICAL as e:
+                ctx.reject(f'lle solver: {type(e).__name__}')
+        elif op == 'vle':
+            V = ch.choice(f's{k}.V', [0.5, 0.0, 1.0, 0.2, 0.8])
+            try:
+                ctx.call('feed.vle', lambda: feed.vle(V=V, P=101325.), allowed=SOLVER_REJECTIONS + SOLVER_NUMERICAL,
+                         region='seq')
+            except SOLVER_REJECTIONS + SOLVER_NUMERICAL as e:
+                ctx.reject(f'vle solver: {type(e).__name__}')
+        else:
+            oph = ch.subset(f's{k}.other.phases', ['s', 'l', 'g', 'L'], min_size=2)
+            other = mk_multi(th, oph, [ch.flows(f's{k}.other.{p}', n, -2, 2) for p in oph], ch.float(f's{k}.other.T', 300., 370.), 2e5)
+            ctx.call('feed.copy_like', feed.copy_like, other, region='seq')
+        after = sorted(feed.phases)
+        change = 'same' if after == before else 'grown' if set(after) > set(before) else 'other'
+        ops.append([op, change])
+        ctx.cell(f'phase_split_seq:op={op}')
+        ctx.cell(f'phase_split_seq:phases-{change}')
+        if not isinstance(feed, tmo.MultiStream):
+            ctx.reject('feed collapsed to a single-phase Stream')
+        _check_phase_split(ctx, feed, th, n, f'seq,step={min(k + 1, 2)},op={op},phases={change},presplit={int(not first)}')
+    ctx.nontriv(['phase_split_seq', pid, phases, [zp(r) for r in rows], ops, first])
+
+
 # ---------------------------------------------------------------------------
 # chemical_splits
 def prop_chemical_splits(ch, ctx):
@@ -948,6 +1039,7 @@ PROPS = {
     'lle': (prop_lle, 640, 10000),
     'vle': (prop_vle, 640, 10000),
     'phase_split': (prop_phase_split, 400, 10000),
+    'phase_split_seq': (prop_phase_split_seq, 400, 8000),
     'chemical_splits': (prop_chemical_splits, 400, 10000),
     'material_balance': (prop_material_balance, 640, 15000),
 }
